@@ -136,6 +136,9 @@ pub enum Val {
     TxList(Vec<TxSpec>),
     Match(MatchSpec),
     Level { price: u64, orders: Vec<OrderSpec> },
+    /// level whose quantity sums may exceed 64 bits: only "decoded reports what the original
+    /// reported" is required, not that the figures are the (unrepresentable) sums
+    BigLevel { price: u64, orders: Vec<OrderSpec> },
     Queue(Vec<OrderSpec>),
     /// text form carries price + aggregates only
     Snapshot(SnapSpec),
@@ -162,6 +165,7 @@ impl Val {
             Val::TxList(_) => "transaction_list",
             Val::Match(_) => "match_result",
             Val::Level { .. } => "level",
+            Val::BigLevel { .. } => "level(sums beyond 64 bits)",
             Val::Queue(_) => "queue",
             Val::Snapshot(_) => "snapshot",
             Val::Package(_) => "snapshot_package",
@@ -409,6 +413,29 @@ fn round_trip_inner(v: &Val, codec: Codec) -> Result<Option<String>, String> {
             };
             let got = level_content(&dec);
             if got != orig || !derived_ok(&got) {
+                return Err(format!(
+                    "level via {codec:?}: sent {orig:?}, encoded {enc:?}, got back {got:?}"
+                ));
+            }
+            Ok(Some(enc))
+        }
+        Val::BigLevel { price, orders } => {
+            let lvl = build_level(*price, orders);
+            let orig = level_content(&lvl);
+            let enc = if txt {
+                lvl.to_string()
+            } else {
+                jerr(serde_json::to_string(&lvl), "level", "serialization")?
+            };
+            let dec: PriceLevel = if txt {
+                PriceLevel::from_str(&enc)
+                    .map_err(|e| format!("level: {enc:?} does not parse back: {e}"))?
+            } else {
+                serde_json::from_str(&enc)
+                    .map_err(|e| format!("level: {enc:?} does not deserialize: {e}"))?
+            };
+            let got = level_content(&dec);
+            if got != orig {
                 return Err(format!(
                     "level via {codec:?}: sent {orig:?}, encoded {enc:?}, got back {got:?}"
                 ));
@@ -713,6 +740,12 @@ pub fn gen_values(seed: u64) -> Vec<Val> {
         price: any_u64(&mut r),
         orders: orders.clone(),
     });
+    if r.chance(1, 3) {
+        vals.push(Val::BigLevel {
+            price: any_u64(&mut r),
+            orders: any_orders(&mut r, 3),
+        });
+    }
     vals.push(Val::Queue(any_orders(&mut r, 5)));
     let so = any_orders(&mut r, 4);
     vals.push(Val::Snapshot(SnapSpec {
@@ -930,6 +963,101 @@ pub fn enumerate_faults(s: &str, subst: &[char], insert: &[char], f: &mut dyn Fn
             );
         }
     }
+    // letter case flipped (a bit flip in an ASCII letter)
+    for k in 0..n {
+        let c = chars[k];
+        if c.is_ascii_alphabetic() {
+            let fc = if c.is_ascii_lowercase() {
+                c.to_ascii_uppercase()
+            } else {
+                c.to_ascii_lowercase()
+            };
+            buf.clear();
+            buf.extend(chars[..k].iter());
+            buf.push(fc);
+            buf.extend(chars[k + 1..].iter());
+            f(
+                &Fault {
+                    kind: "caseflip".into(),
+                    at: k,
+                    ch: Some(fc),
+                    len: 0,
+                },
+                &buf,
+            );
+        }
+    }
+    // an element of a bracketed list delivered twice, the copy with one digit changed
+    // (a duplicated record that was partly overwritten)
+    {
+        let mut depth_sq = 0i32;
+        let mut depth_br = 0i32;
+        let mut in_str = false;
+        let mut start: Option<usize> = None;
+        let mut elems: Vec<(usize, usize)> = vec![];
+        for k in 0..n {
+            let c = chars[k];
+            if c == '"' && (k == 0 || chars[k - 1] != '\\') {
+                in_str = !in_str;
+            }
+            if in_str {
+                continue;
+            }
+            match c {
+                '[' => {
+                    depth_sq += 1;
+                    if depth_sq == 1 {
+                        start = Some(k + 1);
+                    }
+                }
+                ']' => {
+                    if depth_sq == 1 {
+                        if let Some(s0) = start {
+                            if k > s0 {
+                                elems.push((s0, k));
+                            }
+                        }
+                        start = None;
+                    }
+                    depth_sq -= 1;
+                }
+                '{' => depth_br += 1,
+                '}' => depth_br -= 1,
+                ',' if depth_sq == 1 && depth_br == 0 => {
+                    if let Some(s0) = start {
+                        elems.push((s0, k));
+                    }
+                    start = Some(k + 1);
+                }
+                _ => {}
+            }
+        }
+        for (a, b) in elems.into_iter().take(12) {
+            let elem: Vec<char> = chars[a..b].to_vec();
+            // the copy, with its last digit changed (if it has one)
+            let mut copy = elem.clone();
+            if let Some(p) = copy.iter().rposition(|c| c.is_ascii_digit()) {
+                let d = copy[p] as u8 - b'0';
+                copy[p] = (b'0' + (d + 1) % 10) as char;
+            }
+            for variant in [&elem, &copy] {
+                buf.clear();
+                buf.extend(chars[..b].iter());
+                buf.push(',');
+                buf.extend(variant.iter());
+                buf.extend(chars[b..].iter());
+                f(
+                    &Fault {
+                        kind: "dup_element".into(),
+                        at: a,
+                        ch: None,
+                        len: b - a,
+                    },
+                    &buf,
+                );
+            }
+        }
+    }
     // duplication of a run (a replayed block)
     for k in (0..n).step_by(3) {
         for len in [1usize, 7, 40] {
@@ -1082,8 +1210,10 @@ pub fn parsers_for(v: &Val, codec: Codec) -> Vec<&'static str> {
         (Val::TxList(_), false) => vec!["json:transaction_list"],
         (Val::Match(_), true) => vec!["text:match_result"],
         (Val::Match(_), false) => vec!["json:match_result"],
-        (Val::Level { .. }, true) => vec!["text:level"],
-        (Val::Level { .. }, false) => vec!["json:level", "json:level_data"],
+        (Val::Level { .. }, true) | (Val::BigLevel { .. }, true) => vec!["text:level"],
+        (Val::Level { .. }, false) | (Val::BigLevel { .. }, false) => {
+            vec!["json:level", "json:level_data"]
+        }
         (Val::Queue(_), true) => vec!["text:queue"],
         (Val::Queue(_), false) => vec!["json:queue"],
         (Val::Snapshot(_), true) => vec!["text:snapshot"],
